@@ -112,6 +112,7 @@ func (s *snapshots) open() (*snapshot, error) {
 		return nil, err
 	}
 	file := snapFile(s.dir, meta.index)
+	verifPointSnaps(s, "snap.open.metaRead")
 
 	// validate file size
 	info, err := os.Stat(file)
